@@ -702,6 +702,68 @@ func runFoldRef(sc *Scenario) string {
 	return intact("fork.Fold")
 }
 
+func runPipeFoldRef(sc *Scenario) (msg string) {
+	xs := sc.In[0]
+	want := cnt{}
+	elems := make([]*cnt, len(xs))
+	byVal := map[int]*cnt{}
+	for i, x := range xs {
+		want.n, want.sum = want.n+1, want.sum+x
+		if sc.N > 0 {
+			if byVal[x] == nil {
+				byVal[x] = &cnt{1, x}
+			}
+			elems[i] = byVal[x]
+		} else {
+			elems[i] = &cnt{1, x}
+		}
+	}
+	for round := 0; round < 2 && msg == ""; round++ { // the same objects folded twice
+		in := make(chan *cnt, sc.Caps0())
+		go func() {
+			for _, e := range elems {
+				in <- e
+			}
+			close(in)
+		}()
+		out := pipe.Fold[*cnt](context.Background(), in, cntMonoid{})
+		got, ok := <-out
+		_, more := <-out
+		switch {
+		case !ok || got == nil || *got != want || more:
+			msg = fmt.Sprintf("pipe.Fold (pointer carrier, Combine adds into its left operand) over %v, round %d: delivered %+v (ok=%v, more=%v), the fold from Empty() is %+v", xs, round, got, ok, more, want)
+		default:
+			for i, e := range elems {
+				if *e != (cnt{1, xs[i]}) {
+					msg = fmt.Sprintf("pipe.Fold over %v: the caller's element %d reads %+v afterwards, it was sent as {1 %d}", xs, i, *e, xs[i])
+					break
+				}
+			}
+		}
+	}
+	return msg
+}
+
+// TestC05FoldRef: pipe.Fold over a reference-typed carrier whose Combine adds into its left operand.  The fold starts
+// from a fresh Empty(), so the element objects the caller sent (shared objects half of the time) are never written to.
+func TestC05FoldRef(t *testing.T) {
+	rapid.Check(t, func(rt *rapid.T) {
+		sc := &Scenario{Prop: "C05", Stage: "fold/ref", Caps: []int{rapid.IntRange(0, 4).Draw(rt, "cap")},
+			In: [][]int{rapid.SliceOfN(rapid.IntRange(0, 5), 0, 16).Draw(rt, "in")}, N: rapid.IntRange(0, 1).Draw(rt, "sharedElements")}
+		xs := sc.In[0]
+		msg := ""
+		b := bubble.Run(t, func() { msg = runPipeFoldRef(sc) })
+		if msg == "" {
+			msg = b
+		}
+		vk.Record(sc, len(xs) >= 2, "stage=fold/ref", "shared="+strconv.FormatBool(sc.N > 0))
+		if msg != "" {
+			vk.Fail("C05", "TestC05FoldRef", "", sc, msg)
+			rt.Fatalf("%s", msg)
+		}
+	})
+}
+
 func TestC12(t *testing.T) {
 	rapid.Check(t, func(rt *rapid.T) { check(t, rt, "C12", "TestC12", genC12(rt), 1) })
 }
@@ -880,10 +942,19 @@ func TestReplay(t *testing.T) {
 	n := attempts()
 	for a := 0; a < n; a++ {
 		var r Result
-		switch sc.Prop {
-		case "C08":
+		switch {
+		case sc.Stage == "fork.fold/ref" || sc.Stage == "fold/ref":
+			f := runFoldRef
+			if sc.Stage == "fold/ref" {
+				f = runPipeFoldRef
+			}
+			b := bubble.Run(t, func() { r.Msg = f(&sc) })
+			if r.Msg == "" {
+				r.Msg = b
+			}
+		case sc.Prop == "C08":
 			r = ExecUnbound(t, &sc)
-		case "C11", "C13":
+		case sc.Prop == "C11" || sc.Prop == "C13":
 			r = ExecTimed(t, &sc)
 		default:
 			r = Exec(t, &sc)
